@@ -217,6 +217,9 @@ def matrix_ops(tier):
     S = mat(3, 3, "S", True)
     mats = [M, N, B, S, ("T", B), ("T", M), ("sub", S, 0, 2, 0, 2), ("diagm", vec(2, "t"))]
     datas = [arr2(2, 2), arr2(2, 3), arr2(3, 3), ("lst2", ((1.0, 2.0), (3.0, 4.0))), arr(2)]
+    # the same data in other memory layouts (Fortran order, transposed / strided / negative-stride views) and dtypes
+    datas += [d + (lay,) for d in (arr2(2, 2), arr2(2, 3), arr2(3, 3)) for lay in ("F", "T", "strided", "rev")]
+    datas += [("arr2", ((1, -2, 3), (4, 5, -6)), "int"), ("arr2", ((1, 0), (0, 1)), "bool")]
     for X in mats:
         yield ("mneg", X)
         for op in ("+", "-", "*", "/", "**"):
@@ -346,12 +349,25 @@ def check_recipe(r, tier, seed, rep=None, want=None):
                     zero_fill[var.name] = 0.0
                     if not (var.lb == 0 and var.ub == 0):
                         fails.add("diag_matrix-off-diagonal-not-fixed-at-zero", variable=var.name, lb=var.lb, ub=var.ub)
+    # the user's values mapping is ONE dict object updated in place between evaluations (a loop over scenarios), and
+    # every assignment is evaluated twice
+    live = {}
     for k in np.flatnonzero(np.asarray(ok).reshape(-1)[:P] if np.ndim(ok) else [ok]):
         vals = {nm: float(pts[nm][k]) for nm in names}
+        live.update(vals)
+        live.update(zero_fill)
         if rep:
             rep.evaluations += 1
         try:
-            got = evaluate_any(obj, {**vals, **zero_fill})
+            got = evaluate_any(obj, live)
+            again = evaluate_any(obj, live)
+            try:
+                same = np.array_equal(np.asarray(got, dtype=float), np.asarray(again, dtype=float), equal_nan=True)
+            except Exception:
+                same = True
+            if not same:
+                fails.add("second-evaluation-of-the-same-assignment-differs", values=vals, first=got, second=again)
+                break
         except Exception as ex:
             fails.add("built-but-unevaluable:" + type(ex).__name__, values=vals, msg=str(ex)[:200], built=type(obj).__name__)
             break
